@@ -111,3 +111,19 @@ Definition utxo_spendable (target minconf : Z) (f : cbfilter) (addrs : list Z) (
   && utxo_not_wallet_ephemeral u && utxo_coinbase_mature target u && utxo_filter_ok f u
   && match owners with None => true | Some o => utxo_not_locked_by_other target o u end
   && utxo_has_key u.
+
+(** everything but the address/account condition *)
+Definition utxo_core (target minconf : Z) (f : cbfilter) (owners : option (list Z)) (u : utxo_row) : bool :=
+  (5000 <? u_value u)
+  && utxo_confirmed target minconf u && utxo_unspent target u
+  && utxo_not_wallet_ephemeral u && utxo_coinbase_mature target u && utxo_filter_ok f u
+  && match owners with None => true | Some o => utxo_not_locked_by_other target o u end
+  && utxo_has_key u.
+
+(** A coin a transfer of [acct] may spend under a transparent spend policy: it belongs to the
+    account and, when the policy lists addresses, was received at one of them. *)
+Definition utxo_spendable_acct (target minconf : Z) (f : cbfilter) (acct : Z) (allow : option (list Z))
+    (owners : option (list Z)) (u : utxo_row) : bool :=
+  (u_acct u =? acct)
+  && match allow with None => true | Some a => existsb (Z.eqb (u_addr u)) a end
+  && utxo_core target minconf f owners u.
